@@ -261,6 +261,8 @@ def run_c17(ctx):
     for k, prefixes in ([(2, ["p0", "p1", "p3"])] if ctx.tier == "quick" else [(3, ["p1"]), (2, ["p0", "p2", "p3"])]):
         loader_histories(ctx, loader_cfg(k, prefixes, devs, "TRUE"), "histories-%d-%s" % (k, "".join(prefixes)), aspects, devs, extra=["-intro"],
                          vec_filter=(lambda i: i % 3 == ctx.seed % 3) if ctx.tier == "quick" else None)
+    # schemas put together in Go and handed to Root.AddTypes are accepted schemas too
+    loader_histories(ctx, loader_cfg(1, ["p0", "p1"], devs, "TRUE", vias=("sdl", "types"), typesonly=True), "addtypes-1-p0p1", aspects, devs, extra=["-intro"])
     ctx.rule = ("for every accepted schema of the base/valid-variant documents of MCRules.tla and of the arrangements of MCArrange.tla (thinned), the full "
                 "introspection request (types with kind/name/description, fields with arguments, types unrolled through ofType, isDeprecated and "
                 "deprecationReason, interfaces, possibleTypes, enum values, input fields, directives with locations and arguments, the three root types) is "
